@@ -61,6 +61,10 @@ PIPES = [
     (PIPE + ["correct_split_approach_retract"], {}),
     (["compute_tip_position", "correct_split_approach_retract",
       "correct_tip_offset", "smooth_height"], {}),
+    # options kept for a step that is not (any more) in the pipeline
+    (PIPE, {"correct_tip_offset": {"method": "fit_constant_line"},
+            "correct_force_slope": {"region": "approach",
+                                    "strategy": "drift"}}),
 ]
 NAMES = ["me", "Ünï Cödé", "a b", ""]
 COMMENTS = ["", "good", "näive – dash", "two\nlines", "x" * 200]
@@ -324,7 +328,8 @@ class ContainerEngine:
                 var = [0, rng.choice(TWINS_OF_0)] + var[:1]
             cvs.append({"file": rng.randrange(nfiles),
                         "enum": rng.randrange(4),
-                        "pipe": rng.choice([0, 0, 0, 1, 2, 3, 4, 5, 5, 6]),
+                        "pipe": rng.choice([0, 0, 0, 1, 2, 3, 4, 5, 5, 6, 7,
+                                            7]),
                         "variants": var})
         ncont = rng.choice([1, 1, 2])
         nops = rng.choice([3, 4, 5, 6] if tier == "quick"
@@ -394,6 +399,16 @@ class ContainerEngine:
                 if rng.random() < 0.6:
                     op["retry"] = True
             ops.append(op)
+        if ncont == 2 and rng.random() < 0.6:
+            # the same measurement with another fit in the other container
+            base = [o for o in ops if o["op"] == "save"
+                    and "fault" not in o]
+            if base:
+                o2 = copy.deepcopy(rng.choice(base))
+                o2["container"] = 1 - o2["container"] % 2
+                o2["variant"] = o2["variant"] + 1
+                o2.pop("enum_faults", None)
+                ops.append(o2)
         saves = [i for i, o in enumerate(ops) if o["op"] == "save"
                  and "fault" not in o]
         if saves:
@@ -472,6 +487,8 @@ class ContainerEngine:
                 len(w.containers)]))
             log.append({"i": i, "op": "save",
                         "dump": dump_signature(dump(w.containers[k]))})
+        if violation is None and len(w.containers) > 1:
+            violation = self.check_cross(len(run["ops"]))
         probes["fault positions enumerated"] = self.enum_positions
         return {"violation": violation, "log_digest": core.digest(log),
                 "log": log, "probes": dict(probes), "faults": dict(faults),
@@ -811,6 +828,45 @@ class ContainerEngine:
                     f"row {n_} of RateManager.samples differs from the "
                     f"rating features of the curve that was stored", i)
         self.probes["container read back and compared"] += 1
+        return None
+
+    def check_cross(self, i):
+        """What was loaded from one container stays what it is when another
+        container (holding the same measurement with another fit) is loaded
+        afterwards."""
+        import nanite.rate.io as rio
+        w = self.w
+        have = [k for k, p_ in enumerate(w.containers) if p_.exists()
+                and w.ref[k]]
+        if len(have) < 2:
+            return None
+        PLAN.disarm()
+        PLAN.set_phase(None)
+        a, b = have[0], have[1]
+        feats = {"op": "cross-load"}
+        try:
+            with warnings.catch_warnings():
+                warnings.simplefilter("ignore")
+                ra = rio.load_hdf5(w.containers[a])
+                rio.load_hdf5(w.containers[b])
+        except _caught() as e:
+            return make_violation(
+                self.prop, "K1", f"load-raises:{type(e).__name__}", feats,
+                f"loading two containers one after the other raised "
+                f"{type(e).__name__}: {str(e)[:120]}", i)
+        self.oracle_checks += 1
+        self.probes["two containers loaded one after the other"] += 1
+        for r in ra:
+            for key, e in w.ref[a].items():
+                if int(r["enum"]) == key[1] and pathlib.Path(
+                        r["data_set"].path).name.startswith(key[0]) \
+                        and e["state"] == "stored":
+                    v = self.compare_entry(
+                        r, w.curve(e["ci"], e["variant"]), e["user"],
+                        feats, i)
+                    if v:
+                        v["site"] = "cross-load:" + v["site"]
+                        return v
         return None
 
     def compare_entry(self, r, orig, user, feats, i, rule="K1"):
